@@ -1035,6 +1035,10 @@ impl St {
                     Err(e) => error(&e),
                 }
             }
+            "vshow" => {
+                let rel: Vec<u64> = l[1].list().iter().map(|x| x.num()).collect();
+                S::tag("ok", vec![S::str(&Version::new(rel).to_string())])
+            }
             "spec" => match VersionSpecifier::from_str(&l[1].string()) {
                 Ok(sp) => { let o = spec_out(&sp); let v = o.list(); S::tag("ok", vec![v[0].clone(), v[1].clone()]) }
                 Err(e) => S::tag("err", vec![S::str(&e.to_string())]),
